@@ -43,7 +43,7 @@ pub fn info() -> PropInfo {
             "the variant chosen by value() (e.g. Udata vs FileIndex) and the error variant for rejected input are secondary observations; only the payload / the fact of rejection is judged",
             "undefined form codes are only required not to panic (rejection is a secondary observation)",
             "usize is 64 bits on this host",
-            "corpus: llvm-dwarfdump 14 is the oracle; tool failures (compiler, packager, dumper, unparsable text) are inconclusive; normalisations: attribute/form names are mapped to codes through gimli's constant-name tables (a name unknown to them is counted unjudged); data forms are printed unsigned and sdata/implicit_const signed by llvm and compared as such with raw_value(); data4/data8/sec_offset location-list values are compared by their leading offset; enumerated constants printed by name are compared with the name of the typed constant value() yields (unjudged when value() is not typed); decl_file/call_file printed as a path must end with the path_name of the file entry value()'s FileIndex selects; for expressions (exprloc, blocks of location attributes) only the first operation's name is compared; addrx in a .dwo (llvm prints <unresolved>) is compared with the 8-byte slot of the executable's .debug_addr at the DW_AT_addr_base / DW_AT_GNU_addr_base llvm prints for the skeleton unit with the same DWO id; data16 and any other rendering are counted unjudged",
+            "corpus: llvm-dwarfdump 14 is the oracle; tool failures (compiler, packager, dumper, unparsable text) are inconclusive; normalisations: attribute/form names are mapped to codes through gimli's constant-name tables (a name unknown to them is counted unjudged); data forms are printed unsigned and sdata/implicit_const signed by llvm and compared as such with raw_value(); data4/data8/sec_offset location-list values are compared by their leading offset; enumerated constants printed by name are compared with the name of the typed constant value() yields (unjudged when value() is not typed); decl_file/call_file printed as a path must end with the path_name of the file entry value()'s FileIndex selects; for expressions (exprloc, blocks of location attributes) only the first operation's name is compared; addrx in a .dwo (llvm prints <unresolved>) is compared with the 8-byte slot of the executable's .debug_addr at the DW_AT_addr_base / DW_AT_GNU_addr_base llvm prints for the skeleton unit with the same DWO id; data16 is compared as the 16 bytes in section order (the corpus is little-endian); any other rendering is counted unjudged",
         ],
         exhaustive_subspaces: &[
             "form x 64 encodings x boundary payload set (single)",
@@ -77,7 +77,7 @@ const MUST: &[&str] = &[
     "corpus.object", "corpus.object.dwo", "corpus.attr.compared", "corpus.unit.v2", "corpus.unit.v4", "corpus.unit.v5", "corpus.unit.type",
     "corpus.addr", "corpus.addrx", "corpus.addrx.dwo", "corpus.data1", "corpus.data2", "corpus.data4", "corpus.data8", "corpus.sdata", "corpus.implicit_const",
     "corpus.sec_offset", "corpus.flag", "corpus.string", "corpus.strp", "corpus.line_strp", "corpus.strx", "corpus.GNU_str_index", "corpus.ref", "corpus.ref_sig8",
-    "corpus.rnglistx", "corpus.loclistx", "corpus.block", "corpus.expr.first_op", "corpus.named_constant", "corpus.file_name",
+    "corpus.rnglistx", "corpus.loclistx", "corpus.block", "corpus.expr.first_op", "corpus.named_constant", "corpus.file_name", "corpus.data16",
 ];
 
 // ------------------------------------------------------------------ observation (gimli side)
